@@ -153,13 +153,13 @@ impl Check for C19 {
         vec!["the reference table (requests.rs::verdict, DESIGN.md appendix A) is a correct reading of MQTT 5.0".into(), "string content rules (wildcards in a response topic, U+0000) are invalid user input and not generated".into()]
     }
     fn workloads(&self) -> Vec<Workload> {
-        vec![Workload { name: "property-cells", quick: 27 * 7 * 6, thorough: 27 * 7 * 6 }, Workload { name: "qos-cap-cells", quick: 5 * 3 * 2 * 3, thorough: 5 * 3 * 2 * 3 }, Workload { name: "empty-lists", quick: 6, thorough: 6 }, Workload { name: "legal-sets", quick: 15, thorough: 15 }, Workload { name: "requests-after-random-histories", quick: 400, thorough: 600_000 }]
+        vec![Workload { name: "property-cells", quick: 27 * 7 * 7, thorough: 27 * 7 * 7 }, Workload { name: "qos-cap-cells", quick: 5 * 3 * 2 * 3, thorough: 5 * 3 * 2 * 3 }, Workload { name: "empty-lists", quick: 6, thorough: 6 }, Workload { name: "legal-sets", quick: 15, thorough: 15 }, Workload { name: "requests-after-random-histories", quick: 400, thorough: 600_000 }]
     }
     fn min_nontrivial(&self, _tier: Tier) -> usize {
         400
     }
     fn required_counters(&self) -> Vec<&'static str> {
-        vec!["cells_accept", "cells_reject", "no_trace_comparisons", "downgrade_cells", "dead_handle_cells", "blocked_state_cells", "qos_cap_cells_after_reconnect", "reply_cells", "legal_set_cells", "dead_by_keepalive_timeout_cells", "random_history_requests", "random_history_rejects_judged", "random_history_rejects_reported_invalid"]
+        vec!["cells_accept", "cells_reject", "no_trace_comparisons", "downgrade_cells", "dead_handle_cells", "blocked_state_cells", "qos_cap_cells_after_reconnect", "reply_cells", "legal_set_cells", "dead_by_keepalive_timeout_cells", "random_history_requests", "random_history_rejects_judged", "random_history_rejects_reported_invalid", "closing_handle_cells"]
     }
     fn exhaustive(&self) -> bool {
         true
@@ -195,9 +195,11 @@ impl Check for C19 {
                 // 0 idle, 1 in-flight, 2 dead handle, 3 send window used up (Receive Maximum 1, one
                 // publish unacknowledged), 4 all eight in-flight slots used
                 // ... 5 handle dead because a PINGREQ went unanswered
-                let state = (index % 6) as u8;
-                let ctx = CTXS[((index / 6) % 7) as usize];
-                let id = ALL_PROP_IDS[(index / 42) as usize];
+                // ... 6 an earlier disconnect() was given up before any byte went out (it is parked
+                // and the next operation completes it)
+                let state = (index % 7) as u8;
+                let ctx = CTXS[((index / 7) % 7) as usize];
+                let id = ALL_PROP_IDS[(index / 49) as usize];
                 if ctx == Ctx::Reply {
                     // the reply is encoded on an auxiliary, freshly connected session: one state only
                     if state != 0 {
@@ -245,7 +247,7 @@ impl Check for C19 {
                     let v = verdict(&p, ctx, &ENV);
                     let label = format!("{}/{:?}/{:?}/state{}", Prop::name(id), p, ctx, state);
                     out.key(format!("cell/{}/{:?}/{:?}/state{}", Prop::name(id), ctx, v, state));
-                    if state >= 3 {
+                    if state >= 3 && state != 6 {
                         out.count("blocked_state_cells", 1);
                     }
                     let mut cfg = CaseCfg { rx: 256, tx: 2048, keepalive: 0, session_expiry: ENV.connect_expiry, ..CaseCfg::default() };
@@ -280,6 +282,12 @@ impl Check for C19 {
                         steps.push(Step::Broker(BrokerAct::Send(SPacket::Disconnect { reason: Some(0x8B), props: None })));
                         steps.push(poll0());
                     }
+                    if state == 6 {
+                        if let Some(Step::Connect(c)) = steps.first_mut() {
+                            c.policy = IoPolicy { pend_write: Pend::Always, ..IoPolicy::default() };
+                        }
+                        steps.push(Step::Disconnect(DiscSpec { reason: Some(4), props: None, cancel_at: Some(1) }));
+                    }
                     let req_at = steps.len();
                     if ctx != Ctx::Will {
                         steps.push(request_step(ctx, &p));
@@ -313,6 +321,32 @@ impl Check for C19 {
                         let pb = t.log.probes.iter().rev().find(|q| q.ev < op.ev_call);
                         let pa = t.log.probes.iter().find(|q| q.ev > op.ev_ret);
                         let wrote = op.out_after != op.out_before;
+                        if state == 6 {
+                            // the handle is closing: a DISCONNECT request is still judged on its own
+                            // (refused if illegal, otherwise it completes the pending one); every
+                            // other request is refused one way or the other
+                            out.count("closing_handle_cells", 1);
+                            let good = match (&op.outcome, ctx, v) {
+                                (Outcome::Err(ErrRepr::InvalidRequest), _, V::Reject) => true,
+                                (_, Ctx::Disconnect, V::Reject) => false,
+                                (Outcome::Ok(OkKind::Unit), Ctx::Disconnect, _) => true,
+                                (Outcome::Err(ErrRepr::Disconnected), _, _) => true,
+                                (Outcome::Err(_), _, V::DontCare) => true,
+                                _ => false,
+                            };
+                            if !good {
+                                out.violations.push(viol("C19", format!("C19/closing-handle/{:?}/{:?}", ctx, v).to_lowercase(), format!("{:?} with {:?} ({:?}) while an earlier disconnect() is pending returned {:?}", ctx, pc, v, op.outcome)));
+                            }
+                            if v == V::Reject && ctx == Ctx::Disconnect && wrote {
+                                out.violations.push(viol("C19", "C19/closing-handle/disconnect/refused-but-wrote", format!("disconnect with the illegal property {:?} returned {:?} but wrote {} bytes", pc, op.outcome, op.out_after - op.out_before)));
+                            }
+                            // nothing of the request reaches the wire
+                            let c = &t.w.conns[0];
+                            if c.out.packets.iter().any(|k| matches!(&k.pkt, CPacket::Publish { topic, .. } if topic == "c19") || matches!(&k.pkt, CPacket::Subscribe { .. } | CPacket::Unsubscribe { .. }) || matches!(&k.pkt, CPacket::Disconnect { props, .. } if !props.is_empty())) {
+                                out.violations.push(viol("C19", "C19/closing-handle/request-on-wire", format!("{:?} with {:?} while an earlier disconnect() is pending: the request reached the wire", ctx, pc)));
+                            }
+                            return;
+                        }
                         if state == 2 || state == 5 {
                             out.count("dead_handle_cells", 1);
                             if state == 5 {
